@@ -19,7 +19,7 @@ from sem import gen_viral as GV
 from sem import runner as R
 from sem.sx import dec_answer, dec_value, parse
 
-AGG_OPS = {'aggr', 'aggrc'}
+AGG_OPS = {'aggr', 'aggrc', 'analytic'}      # operators that fold the viral values of a group / partition
 
 
 # ------------------------------------------------------------------------------------------------ engine workers
@@ -216,6 +216,48 @@ def same_outcome(a, b):
     return True, ''
 
 
+def compare_viral(case, model_ans, eng_out):
+    """like runner.compare, for statements whose measures are another property's subject (analytic invocations, joins):
+    identifiers and viral attributes only."""
+    a = dec_answer(model_ans)
+    if a[0] == 'bad':
+        return 'skip:model-bad-request', model_ans
+    if eng_out[0] == 'timeout':
+        return 'skip:engine-timeout', None
+    if eng_out[0] == 'vtl' and eng_out[1] in ('SemanticError', 'InputValidationException'):
+        return 'skip:semantic-reject:' + str(eng_out[2]), eng_out[3]
+    if a[0] == 'err':
+        return 'skip:model-' + a[1], eng_out
+    if eng_out[0] != 'ok':
+        return 'DISAGREE:engine-error', eng_out
+    if 'DS_r' not in eng_out[1]:
+        return 'DISAGREE:missing-result', list(eng_out[1])
+    kind, comps, rows = eng_out[1]['DS_r']
+    if kind == 'ds-mismatch':
+        return 'DISAGREE:columns-vs-components', {'components': [c[0] for c in comps], 'data_columns': rows}
+    _, ids, viral, mrows = a
+    e_ids = [c[0] for c in comps if c[1] == 'Identifier']
+    e_viral = [c[0] for c in comps if c[1] == 'Viral Attribute']
+    if sorted(e_ids) != sorted(ids):
+        return 'DISAGREE:identifiers', (ids, e_ids)
+    if sorted(e_viral) != sorted(viral):
+        return 'DISAGREE:viral-attributes', (viral, e_viral)
+    names = [c[0] for c in comps]
+
+    def keyed(nms, rws):
+        return {tuple(dict(zip(nms, r))[i] for i in sorted(ids)): dict(zip(nms, r)) for r in rws}
+    mk, ek = keyed(ids + viral, mrows), keyed(names, rows)
+    if len(ek) != len(rows):
+        return 'DISAGREE:engine-duplicate-keys', rows
+    if set(mk) != set(ek):
+        return 'DISAGREE:keys', {'model_only': sorted(map(str, set(mk) - set(ek))), 'engine_only': sorted(map(str, set(ek) - set(mk)))}
+    for k in mk:
+        for v in viral:
+            if not R.val_eq(mk[k][v], ek[k][v]):
+                return 'DISAGREE:value', {'key': k, 'measure': v, 'model': str(mk[k][v]), 'engine': ek[k][v]}
+    return 'agree', len(mk)
+
+
 def rule_kind(case):
     ks = sorted({('enumerated' if rule.kind == 'enum' else 'aggregate-' + rule.fn) for _, (_, rule) in case['spec'].items()})
     return '+'.join(ks)
@@ -247,7 +289,7 @@ def scripts(ck, n, label, **genkw):
             same, why = same_outcome(base, sh)
             if not same:
                 if has_agg and sens_attrs:
-                    key = 'row-order-dependence:aggregation:enumerated-rule'
+                    key = 'row-order-dependence:%s:enumerated-rule' % ('analytic' if 'analytic' in c['ops'] and not ({'aggr', 'aggrc'} & set(c['ops'])) else 'aggregation')
                 else:
                     key = 'row-order-dependence:%s:%s' % (c['ops'][-1], rule_kind(c))
                 rep = GV.case_to_json(c); rep.update({'base': str(base)[:1500], 'shuffled': str(sh)[:1500], 'why': why})
@@ -255,7 +297,7 @@ def scripts(ck, n, label, **genkw):
                 hist['ORDER-DEPENDENT'] += 1
                 break
         # --- model vs engine
-        v, d = R.compare(c, a, base)
+        v, d = compare_viral(c, a, base) if c.get('viral_only') else R.compare(c, a, base)
         if v.startswith('DISAGREE'):
             kind = v.split(':', 1)[1]
             if kind == 'value' and d['measure'] in sens_attrs and has_agg:
@@ -427,18 +469,64 @@ def replays(ck):
                      'DS#comp: the result structure lists the viral attribute, the data has no such column')
 
 
+def replay(ck, path):
+    """Re-run one stored case on the real code and the model: script cases (model vs engine + a row shuffle), semantic cases;
+    anything else (fragments, fixed probes) re-runs the fixed probes."""
+    import json
+    rep = json.load(open(path)).get('replay') or {}
+    if 'data' in rep and 'model_request' in rep and 'structures' in rep:
+        env = {}
+        for dsj in rep['structures']['datasets']:
+            comps = dsj['DataStructure']
+            typ = [c['type'] for c in comps]
+
+            def cell(v, t):
+                if v is None:
+                    return None
+                if t == 'Number':
+                    return Fraction(str(v))
+                return v
+            env[dsj['name']] = {'ids': [(c['name'], c['type']) for c in comps if c['role'] == 'Identifier'],
+                                'meas': [(c['name'], c['type']) for c in comps if c['role'] == 'Measure'],
+                                'viral': [(c['name'], c['type']) for c in comps if c['role'] == 'Viral Attribute'],
+                                'rows': [tuple(cell(v, t) for v, t in zip(row, typ)) for row in rep['data'].get(dsj['name'], [])]}
+        a = ck.driver('Viral', [rep['model_request']])[0]
+        outs = run_pool([(rep['script'], rep['structures'], env, seed, 240, False) for seed in (None, 1, 2)], procs=3)
+        v, d = R.compare({}, a, outs[0])
+        print('model  :', a[:400]); print('engine :', str(outs[0])[:600]); print('verdict:', v, str(d)[:300])
+        ck.count(('replay', rep['script']), nontrivial=True)
+        for sh in outs[1:]:
+            same, why = same_outcome(outs[0], sh)
+            if not same:
+                ck.violation('replay:row-order-dependence', rep, 'shuffled input rows give another result: ' + why)
+        if v.startswith('DISAGREE'):
+            ck.violation('replay:' + v, rep, '%s | %s' % (v, str(d)[:300]))
+        return
+    if 'model_request' in rep and 'script' in rep:
+        a = ck.driver('Viral', [rep['model_request']])[0]
+        o = run_pool([(rep['script'], rep['structures'], None, None, 120, True)], procs=1)[0]
+        print('model  :', a); print('engine :', str(o)[:400])
+        ck.count(('replay', rep['script']), nontrivial=True)
+        if (parse(a)[0][1] == 'norule') != (o[0] == 'vtl' and o[2] == '1-3-3-6'):
+            ck.violation('replay:semantic', rep, 'model %s vs semantic_analysis %s' % (a, o[:3]))
+        return
+    replays(ck)
+
+
 def main(ck):
+    if ck.replay_path:
+        return replay(ck, ck.replay_path)
     pr = ck.proof('C28')
     q = ck.quick()
-    nf = int(os.environ.get('VERIF_N_FRAG', 25 if q else 400))
-    ns = int(os.environ.get('VERIF_N', 50 if q else 900))
+    nf = int(os.environ.get('VERIF_N_FRAG', 25 if q else 300))
+    ns = int(os.environ.get('VERIF_N', 50 if q else 500))
     import time
     t = [time.time()]
     fragments(ck, nf); t.append(time.time())
     replays(ck); t.append(time.time())
     h1 = scripts(ck, ns, 'any-rule'); t.append(time.time())
     h2 = scripts(ck, ns // 2, 'order-free-rules', order_free_only=True); t.append(time.time())
-    h3 = semantics(ck, 40 if q else 400); t.append(time.time())
+    h3 = semantics(ck, 40 if q else 300); t.append(time.time())
     ck.note('phase_seconds', dict(zip(['fragments', 'replays', 'scripts', 'scripts-order-free', 'semantics'], [round(b - a, 1) for a, b in zip(t, t[1:])])))
     agree = h1['agree'] + h2['agree']
     if agree < ns // 3:
@@ -455,7 +543,7 @@ def main(ck):
                        'dataset-wide execution as in ViralPropagation/sql.py); the upstream tests under tests/ViralAttributes are the arbiter',
                        'viral attributes of type String (enumerated, min, max) and Integer / Number (min, max, sum, avg); enumerated rules over '
                        'non-string attributes are outside the model',
-                       'joins, analytic invocations, hierarchies, validations are not in the generated scripts (analytic partition fold: replay only)']
+                       'analytic invocations and inner joins are compared on identifiers and viral attributes only (their measures are C06 / C04); hierarchies, validations, left/full/cross joins and value-domain rules are not in the generated scripts']
 
 
 vlib.run_check('C28', main)
